@@ -11,6 +11,7 @@ import (
 	"os"
 	"runtime"
 	"strings"
+	"syscall"
 	"time"
 
 	"github.com/goplus/gogen"
@@ -59,7 +60,10 @@ func (g *guard) do(class, detail string, p payload, f func() gx.Outcome) gx.Outc
 	go func() { done <- f() }()
 	tick := time.NewTicker(200 * time.Millisecond)
 	defer tick.Stop()
-	deadline := time.After(20 * time.Second)
+	// the time limit is CPU time of this worker process, not wall-clock time: on a loaded machine an item
+	// that needs one second of work can take a minute of wall time, while a runaway loop burns CPU
+	cpu0 := cpuTime()
+	wall0 := time.Now()
 	for {
 		select {
 		case out := <-done:
@@ -73,13 +77,28 @@ func (g *guard) do(class, detail string, p payload, f func() gx.Outcome) gx.Outc
 				g.c.Flush()
 				os.Exit(0)
 			}
-		case <-deadline:
-			g.c.Violation(class+"|hang", detail+": no result after 20 s", p)
-			g.c.Cap("worker stopped after a time-limit violation")
-			g.c.Flush()
-			os.Exit(0)
+			if used := cpuTime() - cpu0; used > 120*time.Second {
+				g.c.Violation(class+"|hang", fmt.Sprintf("%s: no result after %.0f s of CPU time", detail, used.Seconds()), p)
+				g.c.Cap("worker stopped after a time-limit violation")
+				g.c.Flush()
+				os.Exit(0)
+			}
+			if time.Since(wall0) > 45*time.Minute {
+				// not a verdict: the machine did not give the item enough CPU to decide
+				g.c.Cap("worker stopped: an item got less than 120 s of CPU in 45 min of wall time (" + class + ")")
+				g.c.Flush()
+				os.Exit(0)
+			}
 		}
 	}
+}
+
+func cpuTime() time.Duration {
+	var ru syscall.Rusage
+	if err := syscall.Getrusage(syscall.RUSAGE_SELF, &ru); err != nil {
+		return 0
+	}
+	return time.Duration(ru.Utime.Nano() + ru.Stime.Nano())
 }
 
 // ---------------------------------------------------------------------------------------
